@@ -2,16 +2,16 @@
 # usage: tools/try_seed.sh <patch.diff> <Cxx> [<Cyy> ...]   -- apply a seeded patch to /repo, run checks, undo
 set -u
 patch="$(realpath "$1")"; shift
-cd /repo || exit 2
+R="${VERIF_REPO:-/repo}"; V="${VERIF_DIR:-/verif}"; cd "$R" || exit 2
 if [ -n "$(git status --porcelain)" ]; then echo "/repo not clean"; exit 2; fi
 if ! git apply --3way "$patch" 2>/tmp/try_seed.err; then echo "APPLY FAILED"; cat /tmp/try_seed.err; git reset -q --hard HEAD; exit 3; fi
 git reset -q
 if grep -rq "<<<<<<<" snowfakery; then echo "CONFLICT"; git reset -q --hard HEAD; exit 3; fi
-cd /verif
+cd "$V"
 for p in "$@"; do
   out=$(./check "$p" quick 2>/tmp/try_seed.$p.err); rc=$?
   echo "[$p] exit=$rc $(echo "$out" | grep -c VIOLATION) violation line(s): $(echo "$out" | grep VIOLATION | head -3 | tr '\n' ' ')"
   tail -1 /tmp/try_seed.$p.err
 done
-cd /repo && git checkout -- . && git status --porcelain | head -3
-cd /verif && git checkout -- lean/SnowModel/Generated 2>/dev/null
+cd "$R" && git checkout -- . && git status --porcelain | head -3
+cd "$V" && git checkout -- lean/SnowModel/Generated 2>/dev/null
